@@ -773,7 +773,7 @@ Proof.
   intros R S So Hok Hu. unfold handle, handle_with.
   assert (Fin : forall c1, Rep c1 -> c_heap c1 = <[p_id p := task_of_pod eps p]> (c_heap c) -> c_store c1 = c_store c ->
      jobs_ext (c_jobs c) (c_jobs c1) -> nodes_ext (c_nodes c) (c_nodes c1) ->
-     let c' := with_store c1 (<[p_id p := p]> (c_store c1)) in
+     let c' := with_store c1 (<[p_id p := p]> (c_store c1)) (c_gone c1 ∖ {[p_id p]}) in
      Rep c' /\ Synced c' /\ store_ok c' /\ c_store c' = <[p_id p := p]> (c_store c) /\
      jobs_ext (c_jobs c) (c_jobs c') /\ nodes_ext (c_nodes c) (c_nodes c')).
   { intros c1 R1 Hh Hst Hje Hne. simpl. split; [apply (rep_frame c1); auto|]. split; [|split; [|split; [|auto]]].
